@@ -194,7 +194,9 @@ def describe(path, damaged):
     dirs = [i.ref for i in img.inodes.values() if i.type == sqfsimg.T_DIR]
     blocks = sorted(p - img.sb["inode_table"] for p in img.table_blocks["inode"])
     sizes = {i.ref: (i.size, len(i.block_sizes)) for i in img.inodes.values() if i.type == sqfsimg.T_FILE}
-    return dict(path=path, files=files, dirs=dirs, allrefs=list(img.inodes), paths=[p for p in img.paths if p][:400], nx=len(img.xattr_ids) if img.xattr_hdr else 0,
+    dl = sorted((i for i in img.inodes.values() if i.type == sqfsimg.T_DIR), key=lambda i: -(i.size or 0))
+    bigdirs = [i.ref for i in dl[:3]]
+    return dict(path=path, files=files, dirs=dirs, bigdirs=bigdirs, allrefs=list(img.inodes), paths=[p for p in img.paths if p][:400], nx=len(img.xattr_ids) if img.xattr_hdr else 0,
                 nid=len(img.ids), ninodes=len(img.inodes), blocks=blocks, sizes=sizes, B=img.B, damaged=damaged)
 
 
@@ -206,7 +208,7 @@ def cases(draw, tier="quick"):
     ops = []
     for _ in range(nops):
         kind = draw(st.sampled_from(["inode", "inode", "lsdir", "lsdir", "lspart", "resolve", "inum", "read", "read", "block", "frag", "stream", "cross", "xattr",
-                                     "xdesc", "id", "mseek", "mseek", "root", "iprobe", "rawls", "rawls", "rawcont"]))
+                                     "xdesc", "id", "mseek", "mseek", "root", "iprobe", "rawls", "rawls", "rawcont", "rawzip"]))
         ops.append((kind, draw(st.integers(0, 10 ** 6)), draw(st.integers(0, 10 ** 6)), draw(st.integers(0, 10 ** 6)), draw(st.integers(0, 9))))
     return dict(pool=pi, ops=ops)
 
@@ -257,6 +259,10 @@ def render(case, P):
         elif kind == "rawls":
             # low-level cursor, one object for the whole history: partial listings (0..4 entries) leave it in the middle of a header run
             lines.append("rawls %d %d" % (rnd_ref if bad else (dirs[a % len(dirs)] if inv != 1 else allr[a % len(allr)]), -1 if c % 4 == 0 else b % 5))
+        elif kind == "rawzip":
+            # (the largest directories have several header runs: the alternation then also happens exactly at run boundaries)
+            big = P.get("bigdirs") or dirs
+            lines.append("rawzip %d %d" % (rnd_ref if bad else big[a % len(big)], dirs[b % len(dirs)] if c % 3 else big[b % len(big)]))
         elif kind == "mcont":
             lines.append("mcont %d" % [40, 600, 3000, 9000, 20000][c % 5])
         elif kind == "rawcont":
